@@ -758,6 +758,7 @@ func init() {
 			px.events = append(px.events, fr.fn.String()+fmt.Sprintf("@%p", args[0]))
 		}
 		if sch != nil {
+			sch.preemptPoint("mutex lock")
 			sch.block("mutex lock", func() bool { _, held := lockOwner[m]; return !held })
 		} else if owner, held := lockOwner[m]; held && owner != curThread {
 			if curThread == 1 {
